@@ -68,10 +68,23 @@ type Finding struct {
 	Property string          `json:"property"`
 	Status   string          `json:"status"` // "open" or "fixed"
 	Kind     string          `json:"kind"`   // discrepancy kind it explains
+	Kinds    []string        `json:"kinds,omitempty"` // further kinds with the same root cause
 	Feature  string          `json:"feature"`
 	What     string          `json:"what"`
 	Commit   string          `json:"commit,omitempty"`
 	Witness  json.RawMessage `json:"witness,omitempty"`
+}
+
+func (f *Finding) explains(kind string) bool {
+	if f.Kind == kind {
+		return true
+	}
+	for _, k := range f.Kinds {
+		if k == kind {
+			return true
+		}
+	}
+	return false
 }
 
 type findingsFile struct {
@@ -186,7 +199,7 @@ func writeJSON(path string, v any) {
 func matchFinding(open []Finding, d Disc, feats []string) *Finding {
 	for i := range open {
 		f := &open[i]
-		if f.Kind != d.Kind {
+		if !f.explains(d.Kind) {
 			continue
 		}
 		if f.Feature == "" {
@@ -386,7 +399,7 @@ func RunWitnesses[C any](t *testing.T, s Spec[C]) {
 		for try := 0; try < 3 && !hit; try++ {
 			res := s.Run(c)
 			for _, d := range res.Discs {
-				if d.Kind == f.Kind {
+				if f.explains(d.Kind) {
 					hit = true
 				}
 			}
